@@ -242,6 +242,7 @@ class ParseModel(object):
                     self.square.append((name, a))
         if not self.TAG or not self.DEP:
             raise AnalysisError('%s: score matrices over the tag/dep parameters not found' % H)
+        self.estimate = self._estimate_object(locals_, ctor_args)
         self.agenda = self._one_local(lambda d: 'priority_queue<parsing::cell_item' in (d.type or '') or (d.dtype or '').startswith('std::priority_queue<parsing::cell_item'),
                                       'agenda (priority_queue<cell_item>)')
         per_word = [n for n, d in locals_.items() if 'vector<std::priority_queue<' in (d.type or '') or 'vector<std::priority_queue<' in (d.dtype or '')]
@@ -354,6 +355,8 @@ class ParseModel(object):
                 t = term(st, env)
                 if t[1] == 'compute_outside_probabilities' and len(t[2]) == 3:
                     self.outside.append((t[2][0], t[2][1], t[2][2], st))
+        if self.estimate:
+            self.outside += self.estimate['outside']
         if len(self.outside) != 2:
             raise AnalysisError('%s: expected 2 compute_outside_probabilities calls, found %d'
                                 % (H, len(self.outside)))
@@ -382,6 +385,102 @@ class ParseModel(object):
         self.init_loops = self.loops[:-2]
         self.init_loop = self.init_loops[0]
         self._init_loop_roles()
+
+    def _estimate_object(self, locals_, ctor_args):
+        """A local of a small header class whose constructor computes the outside tables (and keeps them, the best-score
+        vector and its sum as members) is read as the locals it groups: member M of object o becomes the local `o::M`,
+        a member initialised by moving / copying a vector of the caller is that vector, the compute_outside_probabilities
+        calls of the constructor body happen where the object is declared, and o.method(args) reads as the method's
+        return expression.  -> dict or None"""
+        def unmove(t):
+            while t and t[0] == 'call' and str(t[1]).split('::')[-1] in ('move', 'forward') and len(t[2]) == 1:
+                t = t[2][0]
+            if t and t[0] == 'ctor' and len(t[2]) == 1 and 'vector' in (t[1] or ''):
+                return unmove(t[2][0])       # a copy of a vector
+            return t
+        sized = {}
+        for n_, d_ in locals_.items():
+            if 'vector<' in (d_.type or ''):
+                a_ = ctor_args(d_)
+                if a_ and a_[0] == V(self.p_len):
+                    sized[n_] = True
+
+        def norm_size(t):
+            if not isinstance(t, tuple):
+                return t
+            t = tuple(norm_size(x) for x in t)
+            if t and t[0] == 'mcall' and t[2] == 'size' and not t[3] and t[1][0] == 'var' and t[1][1] in sized:
+                return V(self.p_len)
+            return t
+        for name, d in locals_.items():
+            cname = (d.type or '').replace('const ', '').replace('parsing::', '').replace('class ', '').replace('struct ', '').strip()
+            rec = self.decls.get(cname)
+            if rec is None or rec.kind != 'CXXRecordDecl' or cname in ('chart', 'matrix', 'cell_item', 'config', 'cell'):
+                continue
+            args = ctor_args(d)
+            if not args:
+                continue
+            ctors = [k for k in rec.kids if k.kind == 'CXXConstructorDecl' and any(c.kind == 'CompoundStmt' for c in k.kids)
+                     and len([p_ for p_ in k.kids if p_.kind == 'ParmVarDecl']) == len(args)]
+            if len(ctors) != 1:
+                continue
+            ct = ctors[0]
+            body = cxx.body_of(ct)
+            calls = [st for st in body.kids if st.kind == 'CallExpr']
+            cenv = cxx.Env(ct)
+            if not any(term(st, cenv)[1] == 'compute_outside_probabilities' for st in calls):
+                continue
+            cparams = [p_.name for p_ in ct.kids if p_.kind == 'ParmVarDecl']
+            bind = {V(p_): unmove(a_) for p_, a_ in zip(cparams, args)}
+            member = {}
+
+            def resolve(t):
+                t = cxx.subst(t, {('mem', ('this',), m_): v_ for m_, v_ in member.items()})
+                return norm_size(unmove(cxx.subst(t, bind)))
+            sums, squares = [], []
+            for ini in [c for c in ct.kids if c.kind == 'CXXCtorInitializer']:
+                if not ini.kids:
+                    continue
+                t = resolve(term(ini.kids[0], cenv))
+                syn = '%s::%s' % (name, ini.name)
+                if t[0] == 'var' and t[1] in locals_:
+                    member[ini.name] = t                      # the caller's vector, moved / copied in
+                elif t[0] == 'ctor' and 'matrix' in (t[1] or ''):
+                    member[ini.name] = V(syn)
+                    squares.append((syn, t[2]))
+                elif t[0] == 'call' and str(t[1]).split('::')[-1] == 'accumulate' and len(t[2]) == 3 and t[2][0][0] == 'mcall' and t[2][0][2] == 'begin' \
+                        and t[2][1] == ('mcall', t[2][0][1], 'end', ()):
+                    member[ini.name] = V(syn)
+                    sums.append((syn, t[2][0][1], t[2][2]))
+                else:
+                    member[ini.name] = V(syn)
+            # locals of the constructor body (`const unsigned length = v.size();`) are inlined by its environment
+            decl_stmt = [st for st in self.top if st.kind == 'DeclStmt' and any(k is d for k in st.kids)]
+            if not decl_stmt:
+                continue
+            outside = []
+            for st in calls:
+                t = term(st, cenv)
+                if t[1] == 'compute_outside_probabilities' and len(t[2]) == 3:
+                    a_ = [resolve(x) for x in t[2]]
+                    outside.append((a_[0], a_[1], a_[2], decl_stmt[0]))
+            methods = {}
+            for k in rec.kids:
+                if k.kind == 'CXXMethodDecl' and any(c.kind == 'CompoundStmt' for c in k.kids) and not (k.name or '').startswith('operator'):
+                    body_t = cxx.summarise_callable(k)
+                    if body_t is not None:
+                        methods[k.name] = ([p_.name for p_ in cxx.params_of(k)], resolve(body_t))
+            if len(outside) != 2 or not methods:
+                continue
+            for syn, dims in squares:
+                self.square.append((syn, dims))
+                locals_[syn] = d
+            for syn, _, _ in sums:
+                locals_[syn] = d
+            # the object's accessors only read: a local initialised by one of them is the expression it returns
+            cxx.PURE_METHODS.update(methods)
+            return {'name': name, 'outside': outside, 'methods': methods, 'sums': sums, 'decl': d}
+        return None
 
     def agenda_comparator(self):
         """-> (function node, label) of the ordering the agenda uses: operator< on cell_item for the default comparator
@@ -461,13 +560,17 @@ class ParseModel(object):
 
     def expand_derived(self, t):
         """M(a, b) of a derived table -> its defining expression at (a, b)"""
-        if not self.derived or not isinstance(t, tuple):
+        est = getattr(self, 'estimate', None)
+        if (not self.derived and not est) or not isinstance(t, tuple):
             return t
 
         def go(x):
             if not isinstance(x, tuple):
                 return x
             x = tuple(go(y) for y in x)
+            if est and x and x[0] == 'mcall' and x[1] == V(est['name']) and x[2] in est['methods'] and len(x[3]) == len(est['methods'][x[2]][0]):
+                ps_, body_ = est['methods'][x[2]]
+                return cxx.subst(body_, {V(p_): a_ for p_, a_ in zip(ps_, x[3])})
             if x and x[0] == 'idx' and x[1][0] == 'var' and x[1][1] in self.derived and len(x[2]) == 2:
                 vi, vj, expr = self.derived[x[1][1]]
                 return cxx.subst(expr, {V(vi): x[2][0], V(vj): x[2][1]})
@@ -643,6 +746,10 @@ class ParseModel(object):
                 if t is not None and t[0] == 'call' and t[1] in ('accumulate', 'std::accumulate') and len(t[2]) == 3 \
                         and t[2][0] == ('mcall', V(self.BD), 'begin', ()) and t[2][1] == ('mcall', V(self.BD), 'end', ()):
                     self.DALL, self.DALL_sum = name, t[2][2]
+        if self.DALL is None and self.BD and getattr(self, 'estimate', None):
+            for syn, vec, init0 in self.estimate['sums']:
+                if vec == V(self.BD):
+                    self.DALL, self.DALL_sum = syn, init0
         # which outside matrix belongs to which vector
         self.T_OUT = self.D_OUT = None
         for vec, ln, mat, st in self.outside:
